@@ -53,7 +53,7 @@ def strategy(draw):
                         pat[j] = 0
             blocks.append({"t": "gene", "name": "G%d" % gid, "pat": pat,
                            "fill": draw(st.sampled_from(INTER_NAMES)),
-                           "level": draw(st.sampled_from([-1.0, -0.5, -0.2, 0.0, 0.1, 0.2, 0.6]))})
+                           "level": draw(st.sampled_from([-1.0, -0.5, -0.2, 0.0, 0.1, 0.2, 0.6, "thr", "-thr"]))})
             gid += 1
             prev_inter = False
         if not blocks:
@@ -85,7 +85,7 @@ def build(case):
                 ids = []
                 for nm in names:
                     rows.append(_row(c["name"], pos, nm, 0.0, rng, case, rid))
-                    pos = rows[-1]["end"] + int(rng.integers(0, 40))
+                    pos = rows[-1]["end"] + int(rng.integers(0, 40)) * int(rng.integers(0, 3) > 0)
                     ids.append(rid)
                     rid += 1
                 if cgroups and cgroups[-1][0] == "Antitarget":
@@ -97,7 +97,7 @@ def build(case):
                 for bit in b["pat"]:
                     nm = b["name"] if bit else b["fill"]
                     rows.append(_row(c["name"], pos, nm, b["level"], rng, case, rid))
-                    pos = rows[-1]["end"] + int(rng.integers(0, 40))
+                    pos = rows[-1]["end"] + int(rng.integers(0, 40)) * int(rng.integers(0, 3) > 0)
                     ids.append(rid)
                     rid += 1
                 cgroups.append((b["name"], ids))
@@ -108,7 +108,14 @@ def build(case):
 def _row(chrom, pos, name, level, rng, case, rid):
     ln = int(rng.integers(10, 200))
     null = rng.random() < case["null_frac"]
-    log2 = -20.0 if null else float(level + rng.normal(0, 0.05))
+    if isinstance(level, str):
+        # every bin of the gene half a millionth beyond the reporting threshold: |mean| >= threshold must report it
+        log2 = (case["threshold"] + 5e-7) * (-1.0 if level.startswith("-") else 1.0)
+        rng.normal(0, 0.05)
+    else:
+        log2 = float(level + rng.normal(0, 0.05))
+    if null:
+        log2 = -20.0
     return {"rid": rid, "chromosome": chrom, "start": pos, "end": pos + ln, "gene": name, "log2": log2,
             "depth": 0.0 if null else float(2 ** log2 * 100), "weight": float(rng.uniform(0.05, 1.0))}
 
@@ -148,8 +155,11 @@ def make_segments(rows, case):
     for k, s in enumerate(segs):
         w = sum(r["weight"] for r in s)
         vals = [r["log2"] for r in s if r["log2"] > -15] or [0.0]
+        lg = float(np.mean(vals)) + (case["seg_jitter"] if k % 2 else 0.0)
+        if k % 3 == 0 and case["seed"] % 2 == 0 and s[0]["chromosome"] != "chrX":
+            lg = math.copysign(float(case["threshold"]), lg if lg else 1.0)  # exactly on the threshold: must be reported (>=)
         recs.append({"chromosome": s[0]["chromosome"], "start": s[0]["start"], "end": s[-1]["end"], "gene": "-",
-                     "log2": float(np.mean(vals)) + (case["seg_jitter"] if k % 2 else 0.0), "probes": len(s), "weight": w})
+                     "log2": lg, "probes": len(s), "weight": w})
     return CopyNumArray(pd.DataFrame(recs), {"sample_id": "s"}), recs
 
 
@@ -285,7 +295,7 @@ def check_case(case):
         exp_g = []
         for s in segrecs:
             slog = s["log2"] + (xshift if s["chromosome"] == "chrX" else 0.0)
-            edge = abs(abs(slog) - thr) < 1e-9
+            edge = abs(abs(slog) - thr) < 1e-9 and abs(slog) != thr  # a value exactly on the threshold is not a rounding tie
             if not (abs(slog) >= thr or edge):
                 continue
             inside = [r for r in rows if r["chromosome"] == s["chromosome"] and r["end"] > s["start"] and r["start"] < s["end"]]
@@ -303,7 +313,7 @@ def check_case(case):
         got_g = list(tbl.itertuples(index=False)) if len(tbl) else []
         _match_gene_rows(got_g, exp_g, bad, "genemetrics-segments")
         # ---- breaks
-        mp = max(1, case["min_probes"])
+        mp = case["min_probes"]  # 0 is a legitimate value: then only "strictly inside" decides
         br = reports.do_breaks(cnarr, segarr, mp)
         got_b = sorted((r.gene, r.chromosome, int(r.location), int(r.probes_left), int(r.probes_right)) for r in br.itertuples(index=False))
         exp_b = []
